@@ -160,7 +160,7 @@ CHECKS["C18"] = {
 CHECKS["C07"] = {
     "level": "fault_enumeration",
     "rule": ("(1) every byte string of length 0..3, and of length 4 with first byte 0..7 (thorough: all 2^32 over 16 shards), through gbn.Deserialize; all strings <=2 bytes and a header/length grid through MsgData.Deserialize; "
-             "(2) all 256 SYN N values against a live NewServerConn followed by SYNACK and one of three follow-ups (data / ACK+NACK with extreme values / another SYN); "
+             "(2) all 256 SYN N values against a live NewServerConn followed by SYNACK and one of four follow-ups (data / ACK+NACK with extreme values / another SYN / an honest receiver that acknowledges every DATA packet, after which the hook must report nothing outstanding); "
              "(3) for N in 1..3 (thorough: 1..4) a live client sender driven by a raw peer into every (base mod s, outstanding) state, then one ACK or NACK with each of the 256 sequence values, then 1.5 virtual seconds of running on (resend timer, more sends); "
              "(4) rapid: up to 8 arbitrary/hostile packets injected before, during or after the handshake of a live pair; (5) Noise handshake and record stream fed mutated/truncated/random bytes, stripJSONWrapper+protojson on generated JSON-ish strings (mboxprop units); "
              "native fuzzing of the decoders in the thorough tier. Oracle: no panic anywhere (a panic in a connection goroutine kills the worker and is attributed to the running case), Deserialize never returns both value and error, "
@@ -212,7 +212,7 @@ CHECKS["C17"] = {
     "rule": ("rapid-generated 14-byte entropies (plus all-zero, all-one and all 112 single-bit patterns), 10-word phrases from aezeed.DefaultWordList (plus first/last word repeated), static key pairs and pairs of secrets. "
              "Oracle: MnemonicToEntropy(EntropyToMnemonic(e)) == e with the two unused low bits cleared; EntropyToMnemonic(MnemonicToEntropy(w)) == w; NewPassphraseEntropy is consistent; client and server ConnData.SID agree for "
              "the same passphrase and, after SetRemote on both, agree with each other and differ from the passphrase SID (and the pattern switches XX->KK); GetSID(sid,true) and GetSID(sid,false) differ in exactly the last bit; "
-             "distinct passphrases / client keys give distinct SIDs; the stream-direction clause is also observed at the in-memory relay (TestC17Streams). Non-trivial: entropy with an unused low bit set, every phrase and SID case."),
+             "distinct passphrases / client keys give distinct SIDs; the stream-direction clause is also observed at the in-memory relay (TestC17Streams), on the first connection and on up to three further connections of the session built with RefreshClientConn / RefreshServerConn. Non-trivial: entropy with an unused low bit set, every phrase and SID case."),
     "assumptions": ["stream-direction agreement is relative to the in-memory relay"],
     "units": [
         {"pkg": "mboxprop", "run": "TestC17Codec", "checks": (20000, 400000), "shards": (1, 4), "timeout": (600, 3600)},
@@ -252,7 +252,8 @@ CHECKS["C16"] = {
     "rule": ("(a) every valid version range (36) x {XX,KK} x payload {0,40,600} run twice with the same keys and ephemerals: over a message-preserving pipe and over a reader that returns at most k in {1,2,7,33,100} bytes per Read; outcomes (success, version, payload, identities, keys) must be identical. "
              "(b)+(c) partial writes: all two- and three-way partitions of the wire bytes of a record for payload sizes 0..24 (exhaustive) and rapid partitions with up to 12 cut points for sizes up to 65535 at positions incl. across a key rotation; "
              "the peer reads the re-assembled record through a fragmenting reader. Oracle: the bytes accepted over all Flush calls equal the wire record of a reference session written in one go, exactly once; the Flush counts sum to the plaintext length; "
-             "WriteMessage while bytes are pending returns ErrMessageNotFlushed; an extra Flush is a no-op; the peer decrypts the record and the following one. Non-trivial: every fragmented handshake, every partition with >= 1 cut."),
+             "WriteMessage while bytes are pending returns ErrMessageNotFlushed; an extra Flush is a no-op; the peer decrypts the record and the following one. "
+             "(d) NoiseConn.Write (1-3 writes of 0..200000 bytes, chunked above 65535) over a transport that times out at up to 8 drawn wire offsets (anywhere, and near record boundaries), resumed as documented (Flush until it succeeds, add every count, Write the unreported rest): the peer must decrypt exactly the bytes written, once. Non-trivial: every fragmented handshake, every partition with >= 1 cut."),
     "exhaustive_scope": "36 ranges x 2 patterns x 5 fragment sizes x 3 payloads; all <=3-way partitions for payloads 0..24",
     "assumptions": ["scrypt cost lowered by the verif hook"],
     "units": [
